@@ -421,7 +421,7 @@ def jobs(tier):
         js.append(Job("%s_%dto%d" % ("converter" if wr else ("down" if dwm > dws else "up"), dwm, dws), build_conv, dict(dwm=dwm, dws=dws, depth_s=d, K=K, wrapper=wr), cost=8))
     caches = [(4, 8, 8, 16), (4, 8, 16, 8)]
     if T:
-        caches += [(8, 8, 8, 32), (4, 16, 8, 16), (8, 8, 32, 4), (2, 8, 8, 8)]
+        caches += [(8, 8, 8, 32), (4, 16, 8, 64), (8, 8, 32, 4), (2, 8, 8, 8)]      # (16to8: 64 slave bytes = 3 tag bits, so that a dirty line with a non-zero tag can be evicted by another non-zero tag)
     for (cs, dwm, dws, d) in caches:
         # (master wider than slave: a dirty line is evicted in several slave words and refilled later - write, conflicting access, read back needs ~20 cycles)
         js.append(Job("cache%d_%dto%d" % (cs, dwm, dws), build_cache, dict(cachesize=cs, dwm=dwm, dws=dws, depth_s=d, K=(22 if dwm > dws else 16 if T else 12)), cost=30, timeout_s=3400))
